@@ -1,12 +1,13 @@
 #!/bin/bash
-# benign_matrix.sh [dir]: every behaviour-preserving change under <dir> (default /verif/benign; layout
+export V=${VERIF:-/verif}; export VERIF=$V
+# benign_matrix.sh [dir]: every behaviour-preserving change under <dir> (default $V/benign; layout
 # <dir>/<id>/patch.diff or <dir>/Cnn/k/patch.diff) × every check. Anything but silence is a false alarm
 # (DETECTED) or an over-tight anchor (UNDECIDED) of the checker.
-dir=${1:-/verif/benign}
-props="$(/verif/bin/upfcheck -list | tr '\n' ' ') C20"
+dir=${1:-$V/benign}
+props="$($V/bin/upfcheck -list | tr '\n' ' ') C20"
 n=$(ls $dir/*/patch.diff $dir/C*/[0-9]*/patch.diff 2>/dev/null | wc -l)
 echo "# $n patches × $(echo $props | wc -w) checks" >&2
 ls $dir/*/patch.diff $dir/C*/[0-9]*/patch.diff 2>/dev/null | xargs -P 14 -I{} bash -c '
   f={}; id=$(echo $f | sed "s#.*/\(C[0-9]*\)/\([0-9]*\)/patch.diff#\1-b\2#; s#.*/\([^/]*\)/patch.diff#\1#")
-  MUT_LINES=3 /verif/scripts/mut.sh $f '"$props"' 2>&1 | grep -v "^KNOWN\|^ *KNOWN" | grep -E "^(DETECTED|UNDECIDED|PATCH-FAILED)|rule=|construct:|UNDECIDED property" | sed "s#^#$id #"
+  MUT_LINES=3 $V/scripts/mut.sh $f '"$props"' 2>&1 | grep -v "^KNOWN\|^ *KNOWN" | grep -E "^(DETECTED|UNDECIDED|PATCH-FAILED)|rule=|construct:|UNDECIDED property" | sed "s#^#$id #"
 '
